@@ -798,6 +798,18 @@ class Interp(object):
                            "projector `%s` acts in frame %s but is applied to a point in frame %s (relative bounds used on an absolute point or vice versa)"
                            % (_lambda_text(sub), pf, x.f), "%s|projector-frame|%s" % (sub.parent.fid if sub.parent else sub.fid, _lambda_text(sub)[:50]))
             return self.invoke(frame, node, sub, [x], {}, cenv)
+        if p.k == "obj":
+            # a small callable class (closure turned into an object): its __call__ is the projector
+            cls = self.prog.classes.get(p.tag)
+            callm = cls.methods.get("__call__") if cls is not None else None
+            if callm is not None:
+                probe = self.invoke(frame, node, callm, [p, vec("?", tag="probe")], {}, None)
+                pf = probe.f if is_vec(probe) else "?"
+                if is_vec(x) and pf not in ("?", "X") and not compat(pf, x.f):
+                    self.issue("dykstra-frames", fi, node,
+                               "projector `%s.__call__` acts in frame %s but is applied to a point in frame %s (relative bounds used on an absolute point or vice versa)"
+                               % (p.tag, pf, x.f), "%s|projector-frame|%s" % (callm.fid, p.tag))
+                return self.invoke(frame, node, callm, [p, x], {}, None)
         return vec(x.f if is_vec(x) else "?")
 
     def libcall(self, frame, env, node, ci, recv, args, kwargs):
